@@ -2,11 +2,21 @@
 From Coq Require Import ZArith List Bool Lia.
 Import ListNotations.
 From Mds Require Import Gen.QueueIdx Queue.QueueModel Queue.QueueSpec.
+From Mds Require Slice.SliceUtilModel Slice.SliceUtilSpec Slice.SliceUtilProofsRotate.
 Local Open Scope Z_scope.
 
 (* the shape the model's skeleton relies on: one slice.Rotate and one append in each of Add/Push *)
 Example gen_call_counts :
   add_ncalls_rotate = 1 /\ add_ncalls_append = 1 /\ push_ncalls_rotate = 1 /\ push_ncalls_append = 1.
+Proof. repeat split. Qed.
+
+(* the sums the model wraps before taking the remainder are the ones in the Go source: the
+   generated full expressions equal the generated remainders applied to the sums written in the model *)
+Example gen_sum_ties :
+  (forall h k l, peek_idx h k l = peek_idx_rem (h + k) l) /\
+  (forall h l, pop_head_next h l = pop_head_rem (h + 1) l) /\
+  (forall c l, each_next c l = each_next_rem (c + 1) l) /\
+  (forall c l, slice_next c l = slice_next_rem (c + 1) l).
 Proof. repeat split. Qed.
 
 Section Proofs.
@@ -15,9 +25,9 @@ Variable zero : T.
 
 (* Peek with an offset outside [-n, n) answers (zero, false) in every state, even an ill-formed one. *)
 Lemma peek_out_of_range : forall (q : queue T) (k : Z),
-  k < - n q \/ k >= n q -> peek T zero q k = Ok (zero, false).
+  k < - n q \/ k >= n q -> peek idw T zero q k = QOk (zero, false).
 Proof.
-  intros q k H. unfold peek, peek_neg, peek_adj, peek_out.
+  intros q k H. unfold peek, peek_neg, peek_adj, peek_out, idw.
   destruct (k <? 0) eqn:E.
   - apply Z.ltb_lt in E.
     destruct ((k + n q <? 0) || (k + n q >=? n q)) eqn:E2; [reflexivity|].
@@ -159,11 +169,11 @@ Proof.
 Qed.
 
 Lemma add_room : forall q v c, inv q -> n q < zlen T (vs q) ->
-  exists q', add T zero q v c = Ok q' /\ inv q' /\ abs q' = abs q ++ [v] /\
+  exists q', add idw T zero q v c = QOk q' /\ inv q' /\ abs q' = abs q ++ [v] /\
              zlen T (vs q') = zlen T (vs q) /\ n q' = n q + 1.
 Proof.
   intros q v c (Hn & Hh0 & Hh & He) Hroom.
-  unfold add, add_has_room, add_pos, add_wrap_cond, add_wrap_pos, add_store_idx, add_n.
+  unfold add, add_has_room, add_pos, add_wrap_cond, add_wrap_pos, add_store_idx, add_n, idw.
   set (L := zlen T (vs q)) in *.
   replace (n q <? L) with true by (symmetry; apply Z.ltb_lt; lia).
   assert (HL : 0 < L) by lia.
@@ -193,11 +203,11 @@ Qed.
 
 
 Lemma push_room : forall q v c, inv q -> n q < zlen T (vs q) ->
-  exists q', push T zero q v c = Ok q' /\ inv q' /\ abs q' = v :: abs q /\
+  exists q', push idw T zero q v c = QOk q' /\ inv q' /\ abs q' = v :: abs q /\
              zlen T (vs q') = zlen T (vs q) /\ n q' = n q + 1.
 Proof.
   intros q v c (Hn & Hh0 & Hh & He) Hroom.
-  unfold push, push_has_room, push_pos, push_wrap_cond, push_wrap_pos, push_store_idx, push_head, push_n.
+  unfold push, push_has_room, push_pos, push_wrap_cond, push_wrap_pos, push_store_idx, push_head, push_n, idw.
   set (L := zlen T (vs q)) in *.
   replace (n q <? L) with true by (symmetry; apply Z.ltb_lt; lia).
   assert (HL : 0 < L) by lia.
@@ -234,19 +244,23 @@ Qed.
 Lemma rotate_home_full : forall cond kf nh q,
   (forall h, cond h = (h >? 0)) -> (forall h, kf h = - h) -> nh = 0 ->
   inv q -> n q = zlen T (vs q) ->
-  rotate_home T cond kf nh q = Ok (abs q, 0).
+  rotate_home idw T cond kf nh q = QOk (abs q, 0).
 Proof.
   intros cond kf nh q Hc Hk Hnh (Hn & Hh0 & Hh & He) Hfull.
-  unfold rotate_home. rewrite Hc, Hk, Hnh.
+  unfold rotate_home, idw. rewrite Hc, Hk, Hnh.
   set (L := zlen T (vs q)) in *.
   destruct (head q >? 0) eqn:E; zb.
   - assert (Hh' : head q < L) by lia.
-    unfold rotate_list. fold L.
-    replace (- head q <? 0) with true by (symmetry; apply Z.ltb_lt; lia).
-    replace ((- head q + L <? 0) || (- head q + L >? L)) with false.
-    2:{ symmetry. apply orb_false_iff. rewrite Z.gtb_ltb. split; apply Z.ltb_ge; lia. }
-    cbn [of_opt bind]. do 2 f_equal.
-    replace (Z.to_nat (L - (- head q + L))) with (Z.to_nat (head q)) by lia.
+    unfold rotate_go.
+    rewrite SliceUtilProofsRotate.rotate_impl_spec
+      by (change (SliceUtilModel.zlen (vs q)) with L; lia).
+    cbn [bind]. do 2 f_equal.
+    unfold SliceUtilSpec.rotate_list. change (SliceUtilModel.zlen (vs q)) with L.
+    replace (L =? 0) with false by (symmetry; apply Z.eqb_neq; lia).
+    replace ((- head q) mod L) with (L - head q).
+    2:{ replace (- head q) with ((L - head q) + (-1) * L) by lia.
+        rewrite Z.mod_add by lia. rewrite Z.mod_small by lia. reflexivity. }
+    replace (Z.to_nat (L - (L - head q))) with (Z.to_nat (head q)) by lia.
     set (h := Z.to_nat (head q)).
     assert (HLn : length (vs q) = Z.to_nat L) by (unfold L, zlen; lia).
     assert (Hf : length (firstn h (vs q)) = h) by (rewrite firstn_length; lia).
@@ -269,7 +283,7 @@ Lemma abs_zlen : forall q, 0 <= n q -> zlen T (abs q) = n q.
 Proof. intros. unfold zlen. rewrite abs_length. lia. Qed.
 
 Lemma add_grow : forall q v c, inv q -> ~ n q < zlen T (vs q) -> c > zlen T (vs q) ->
-  exists q', add T zero q v c = Ok q' /\ inv q' /\ abs q' = abs q ++ [v] /\
+  exists q', add idw T zero q v c = QOk q' /\ inv q' /\ abs q' = abs q ++ [v] /\
              zlen T (vs q') = c /\ n q' = n q + 1.
 Proof.
   intros q v c Hinv Hfull Hc. pose proof Hinv as (Hn & Hh0 & Hh & He).
@@ -277,7 +291,7 @@ Proof.
   unfold add, add_has_room, add_grow_hi, add_grow_n.
   replace (n q <? zlen T (vs q)) with false by (symmetry; apply Z.ltb_ge; lia).
   rewrite (rotate_home_full add_rot_cond add_rot_k add_rot_head q) by (auto; reflexivity).
-  cbn [bind]. unfold append_cap. rewrite abs_zlen by lia.
+  cbn [bind]. unfold idw. unfold append_cap. rewrite abs_zlen by lia.
   replace (c >? n q) with true by (symmetry; rewrite Z.gtb_ltb; apply Z.ltb_lt; lia).
   set (w := abs q ++ v :: repeat zero (Z.to_nat (c - n q - 1))).
   assert (Hw : length w = Z.to_nat c).
@@ -295,20 +309,20 @@ Proof.
 Qed.
 
 Lemma add_bad_oracle : forall q v c, inv q -> ~ n q < zlen T (vs q) -> c <= zlen T (vs q) ->
-  add T zero q v c = BadOracle.
+  add idw T zero q v c = BadOracle.
 Proof.
   intros q v c Hinv Hfull Hc. pose proof Hinv as (Hn & Hh0 & Hh & He).
   assert (Hf : n q = zlen T (vs q)) by lia.
   unfold add, add_has_room.
   replace (n q <? zlen T (vs q)) with false by (symmetry; apply Z.ltb_ge; lia).
   rewrite (rotate_home_full add_rot_cond add_rot_k add_rot_head q) by (auto; reflexivity).
-  cbn [bind]. unfold append_cap. rewrite abs_zlen by lia.
+  cbn [bind]. unfold idw. unfold append_cap. rewrite abs_zlen by lia.
   replace (c >? n q) with false by (symmetry; rewrite Z.gtb_ltb; apply Z.ltb_ge; lia).
   reflexivity.
 Qed.
 
 Lemma push_grow : forall q v c, inv q -> ~ n q < zlen T (vs q) -> c > zlen T (vs q) ->
-  exists q', push T zero q v c = Ok q' /\ inv q' /\ abs q' = v :: abs q /\
+  exists q', push idw T zero q v c = QOk q' /\ inv q' /\ abs q' = v :: abs q /\
              zlen T (vs q') = c /\ n q' = n q + 1.
 Proof.
   intros q v c Hinv Hfull Hc. pose proof Hinv as (Hn & Hh0 & Hh & He).
@@ -316,7 +330,7 @@ Proof.
   unfold push, push_has_room, push_grow_hi, push_grow_n, push_grow_head, push_grow_store_idx.
   replace (n q <? zlen T (vs q)) with false by (symmetry; apply Z.ltb_ge; lia).
   rewrite (rotate_home_full push_rot_cond push_rot_k push_rot_head q) by (auto; reflexivity).
-  cbn [bind]. unfold append_cap. rewrite abs_zlen by lia.
+  cbn [bind]. unfold idw. unfold append_cap. rewrite abs_zlen by lia.
   replace (c >? n q) with true by (symmetry; rewrite Z.gtb_ltb; apply Z.ltb_lt; lia).
   set (w := abs q ++ v :: repeat zero (Z.to_nat (c - n q - 1))).
   assert (Hw : length w = Z.to_nat c).
@@ -348,28 +362,28 @@ Proof.
 Qed.
 
 Lemma push_bad_oracle : forall q v c, inv q -> ~ n q < zlen T (vs q) -> c <= zlen T (vs q) ->
-  push T zero q v c = BadOracle.
+  push idw T zero q v c = BadOracle.
 Proof.
   intros q v c Hinv Hfull Hc. pose proof Hinv as (Hn & Hh0 & Hh & He).
   assert (Hf : n q = zlen T (vs q)) by lia.
   unfold push, push_has_room.
   replace (n q <? zlen T (vs q)) with false by (symmetry; apply Z.ltb_ge; lia).
   rewrite (rotate_home_full push_rot_cond push_rot_k push_rot_head q) by (auto; reflexivity).
-  cbn [bind]. unfold append_cap. rewrite abs_zlen by lia.
+  cbn [bind]. unfold idw. unfold append_cap. rewrite abs_zlen by lia.
   replace (c >? n q) with false by (symmetry; rewrite Z.gtb_ltb; apply Z.ltb_ge; lia).
   reflexivity.
 Qed.
 
 
-Lemma pop_empty_q : forall q, n q = 0 -> pop T zero q = Ok (q, (zero, false)).
-Proof. intros q H. unfold pop, pop_empty. rewrite H. reflexivity. Qed.
+Lemma pop_empty_q : forall q, n q = 0 -> pop idw T zero q = QOk (q, (zero, false)).
+Proof. intros q H. unfold pop, pop_empty, idw. rewrite H. reflexivity. Qed.
 
 Lemma pop_nonempty : forall q, inv q -> 0 < n q ->
-  exists q' x, pop T zero q = Ok (q', (x, true)) /\ inv q' /\ abs q = x :: abs q' /\
+  exists q' x, pop idw T zero q = QOk (q', (x, true)) /\ inv q' /\ abs q = x :: abs q' /\
                zlen T (vs q') = zlen T (vs q) /\ n q' = n q - 1.
 Proof.
   intros q (Hn & Hh0 & Hh & He) Hpos.
-  unfold pop, pop_empty, pop_idx, pop_n, pop_now_empty, pop_head_reset, pop_head_next.
+  unfold pop, pop_empty, pop_idx, pop_n, pop_now_empty, pop_head_reset, pop_head_rem, idw.
   set (L := zlen T (vs q)) in *.
   replace (n q =? 0) with false by (symmetry; apply Z.eqb_neq; lia).
   assert (Hh' : head q < L) by lia.
@@ -398,16 +412,16 @@ Proof.
     + reflexivity.
 Qed.
 
-Lemma pop_last_empty_q : forall q, n q = 0 -> pop_last T zero q = Ok (q, (zero, false)).
-Proof. intros q H. unfold pop_last, poplast_empty. rewrite H. reflexivity. Qed.
+Lemma pop_last_empty_q : forall q, n q = 0 -> pop_last idw T zero q = QOk (q, (zero, false)).
+Proof. intros q H. unfold pop_last, poplast_empty, idw. rewrite H. reflexivity. Qed.
 
 Lemma pop_last_nonempty : forall q, inv q -> 0 < n q ->
-  exists q' x, pop_last T zero q = Ok (q', (x, true)) /\ inv q' /\ abs q = abs q' ++ [x] /\
+  exists q' x, pop_last idw T zero q = QOk (q', (x, true)) /\ inv q' /\ abs q = abs q' ++ [x] /\
                zlen T (vs q') = zlen T (vs q) /\ n q' = n q - 1.
 Proof.
   intros q (Hn & Hh0 & Hh & He) Hpos.
   unfold pop_last, poplast_empty, poplast_pos, poplast_wrap_cond, poplast_wrap_pos, poplast_idx,
-    poplast_n, poplast_now_empty, poplast_head_reset.
+    poplast_n, poplast_now_empty, poplast_head_reset, idw.
   set (L := zlen T (vs q)) in *.
   replace (n q =? 0) with false by (symmetry; apply Z.eqb_neq; lia).
   assert (Hh' : head q < L) by lia.
@@ -435,7 +449,7 @@ Qed.
 
 
 (* ------------------------------------------------------------------ observers *)
-Lemma front_ok : forall q, inv q -> front T zero q = Ok (hd zero (abs q)).
+Lemma front_ok : forall q, inv q -> front T zero q = QOk (hd zero (abs q)).
 Proof.
   intros q (Hn & Hh0 & Hh & He). unfold front, front_empty, front_idx.
   destruct (n q =? 0) eqn:E; zb.
@@ -445,9 +459,9 @@ Proof.
     cbn [seq map hd]. unfold ring. rewrite Z.add_0_r, Z.mod_small by lia. reflexivity.
 Qed.
 
-Lemma peek_ok : forall q k, inv q -> peek T zero q k = Ok (spec_peek T zero (abs q) k).
+Lemma peek_ok : forall q k, inv q -> peek idw T zero q k = QOk (spec_peek T zero (abs q) k).
 Proof.
-  intros q k (Hn & Hh0 & Hh & He). unfold peek, spec_peek, peek_neg, peek_adj, peek_out, peek_idx, peek_load_idx.
+  intros q k (Hn & Hh0 & Hh & He). unfold peek, spec_peek, peek_neg, peek_adj, peek_out, peek_idx_rem, peek_load_idx, idw.
   rewrite abs_length. rewrite Z2Nat.id by lia.
   set (k' := if k <? 0 then k + n q else k).
   set (L := zlen T (vs q)) in *.
@@ -472,11 +486,11 @@ Variable f : A -> T -> A * bool.
 
 Lemma each_loop_ok : forall q k j a,
   0 < zlen T (vs q) -> 0 <= head q ->
-  each_loop T A f k (vs q) ((head q + Z.of_nat j) mod zlen T (vs q)) a
-  = Ok (spec_each T f (map (ring q) (seq j k)) a).
+  each_loop idw T A f k (vs q) ((head q + Z.of_nat j) mod zlen T (vs q)) a
+  = QOk (spec_each T f (map (ring q) (seq j k)) a).
 Proof.
   intros q k. induction k as [|k IH]; intros j a HL Hh; [reflexivity|].
-  cbn [each_loop seq map spec_each]. unfold each_idx, each_next.
+  cbn [each_loop seq map spec_each]. unfold each_idx, each_next_rem, each_stop, idw.
   set (L := zlen T (vs q)) in *.
   rewrite idx_znth by (apply Z.mod_pos_bound; lia). cbn [of_opt bind].
   change (znth (vs q) ((head q + Z.of_nat j) mod L)) with (ring q j). destruct (f a (ring q j)) as [a' cont]. destruct cont; [|reflexivity].
@@ -487,9 +501,9 @@ Proof.
   apply IH; assumption.
 Qed.
 
-Lemma each_ok : forall q a, inv q -> each T A f q a = Ok (spec_each T f (abs q) a).
+Lemma each_ok : forall q a, inv q -> each idw T A f q a = QOk (spec_each T f (abs q) a).
 Proof.
-  intros q a (Hn & Hh0 & Hh & He). unfold each, each_count, each_start.
+  intros q a (Hn & Hh0 & Hh & He). unfold each, each_count, each_start, idw.
   destruct (Z.eq_dec (n q) 0) as [E|E].
   - rewrite abs_nil by lia. rewrite E. reflexivity.
   - pose proof (each_loop_ok q (Z.to_nat (n q)) 0%nat a) as H. cbn [Z.of_nat] in H.
@@ -509,12 +523,12 @@ Qed.
 
 Lemma slice_loop_ok : forall q k j pre rest,
   0 < zlen T (vs q) -> 0 <= head q -> length pre = j -> (k <= length rest)%nat ->
-  slice_loop T k (Z.of_nat j) (vs q) ((head q + Z.of_nat j) mod zlen T (vs q)) (pre ++ rest)
-  = Ok (pre ++ map (ring q) (seq j k) ++ skipn k rest).
+  slice_loop idw T k (Z.of_nat j) (vs q) ((head q + Z.of_nat j) mod zlen T (vs q)) (pre ++ rest)
+  = QOk (pre ++ map (ring q) (seq j k) ++ skipn k rest).
 Proof.
   intros q k. induction k as [|k IH]; intros j pre rest HL Hh Hp Hr; [reflexivity|].
   destruct rest as [|y r]; [cbn in Hr; lia|].
-  cbn [slice_loop seq map skipn]. unfold slice_src_idx, slice_dst_idx, slice_next.
+  cbn [slice_loop seq map skipn]. unfold slice_src_idx, slice_dst_idx, slice_next_rem, idw.
   set (L := zlen T (vs q)) in *.
   rewrite idx_znth by (apply Z.mod_pos_bound; lia). cbn [of_opt bind].
   change (znth (vs q) ((head q + Z.of_nat j) mod L)) with (ring q j).
@@ -532,7 +546,7 @@ Proof.
   - cbn [length] in Hr. lia.
 Qed.
 
-Lemma slice_ok : forall q, inv q -> slice T zero q = Ok (abs q).
+Lemma slice_ok : forall q, inv q -> slice idw T zero q = QOk (abs q).
 Proof.
   intros q (Hn & Hh0 & Hh & He). unfold slice, slice_empty, slice_buflen, slice_count, slice_start.
   destruct (n q =? 0) eqn:E; zb.
@@ -555,7 +569,7 @@ Proof.
 Qed.
 
 Lemma step_refines : forall q o, inv q -> oracle_valid T (zlen T (vs q)) (n q) o ->
-  exists q' r, step T zero q o = Ok (q', r) /\ inv q' /\
+  exists q' r, step idw T zero q o = QOk (q', r) /\ inv q' /\
     spec_step T zero (abs q) o = (abs q', r) /\
     (zlen T (vs q'), n q') = cap_next T (zlen T (vs q)) (n q) o.
 Proof.
@@ -634,7 +648,7 @@ Proof.
 Qed.
 
 Lemma step_bad_oracle : forall q o, inv q -> ~ oracle_valid T (zlen T (vs q)) (n q) o ->
-  step T zero q o = BadOracle.
+  step idw T zero q o = BadOracle.
 Proof.
   intros q o Hinv Hval.
   destruct o as [v c|v c| | | | | | |k|m|]; cbn [oracle_valid] in Hval; try (exfalso; apply Hval; exact I).
@@ -652,20 +666,20 @@ Qed.
 Definition is_observer (o : op T) : bool :=
   match o with OLen | OIsEmpty | OFront | OPeek _ | OEach _ | OSlice => true | _ => false end.
 
-Lemma observers_pure : forall q o q' r, is_observer o = true -> step T zero q o = Ok (q', r) -> q' = q.
+Lemma observers_pure : forall q o q' r, is_observer o = true -> step idw T zero q o = QOk (q', r) -> q' = q.
 Proof.
   intros q o q' r Ho Hs. destruct o; try discriminate; cbn [step] in Hs.
   - inversion Hs; reflexivity.
   - inversion Hs; reflexivity.
   - destruct (front T zero q); cbn [bind] in Hs; inversion Hs; reflexivity.
-  - destruct (peek T zero q k) as [[x ok]| |]; cbn [bind] in Hs; inversion Hs; reflexivity.
-  - destruct (each T (list T * nat) (collect T) q ([], m)) as [[acc b]| |]; cbn [bind] in Hs; inversion Hs; reflexivity.
-  - destruct (slice T zero q); cbn [bind] in Hs; inversion Hs; reflexivity.
+  - destruct (peek idw T zero q k) as [[x ok]| | |]; cbn [bind] in Hs; inversion Hs; reflexivity.
+  - destruct (each idw T (list T * nat) (collect T) q ([], m)) as [[acc b]| | |]; cbn [bind] in Hs; inversion Hs; reflexivity.
+  - destruct (slice idw T zero q); cbn [bind] in Hs; inversion Hs; reflexivity.
 Qed.
 
 (* ------------------------------------------------------------------ histories *)
 Theorem run_refines : forall ops q, inv q -> oracles_ok T (zlen T (vs q)) (n q) ops ->
-  run T zero q ops = map Ok (spec_run T zero (abs q) ops).
+  run idw T zero q ops = map QOk (spec_run T zero (abs q) ops).
 Proof.
   induction ops as [|o ops IH]; intros q Hinv Hor; [reflexivity|].
   cbn [oracles_ok] in Hor. destruct Hor as [Hv Hrest].
@@ -676,8 +690,8 @@ Qed.
 
 (* whatever the oracles are: a prefix of the reference outputs, then at most one BadOracle *)
 Theorem run_any_oracle : forall ops q, inv q ->
-  exists k, run T zero q ops =
-    map Ok (firstn k (spec_run T zero (abs q) ops)) ++ (if (k <? length ops)%nat then [BadOracle] else []).
+  exists k, run idw T zero q ops =
+    map QOk (firstn k (spec_run T zero (abs q) ops)) ++ (if (k <? length ops)%nat then [BadOracle] else []).
 Proof.
   induction ops as [|o ops IH]; intros q Hinv.
   - exists 0%nat. reflexivity.
@@ -689,7 +703,7 @@ Proof.
 Qed.
 
 Lemma mk_init_ok : forall i, init_ok i ->
-  exists q, mk_init T zero i = Ok q /\ inv q /\ abs q = [] /\ zlen T (vs q) = init_cap i /\ n q = 0.
+  exists q, mk_init T zero i = QOk q /\ inv q /\ abs q = [] /\ zlen T (vs q) = init_cap i /\ n q = 0.
 Proof.
   intros i Hi. destruct i as [| |k]; cbn [mk_init init_cap init_ok] in *.
   - eexists. split; [reflexivity|]. unfold inv, zero_queue; cbn. repeat split; lia.
@@ -700,7 +714,7 @@ Proof.
 Qed.
 
 Theorem history : forall i ops, init_ok i -> oracles_ok T (init_cap i) 0 ops ->
-  run_init T zero i ops = map Ok (spec_run T zero [] ops).
+  run_init idw T zero i ops = map QOk (spec_run T zero [] ops).
 Proof.
   intros i ops Hi Hor. destruct (mk_init_ok i Hi) as (q & Hq & Hinv & Ha & Hl & Hn).
   unfold run_init. rewrite Hq. rewrite <- Ha. apply run_refines; [exact Hinv|].
@@ -708,14 +722,14 @@ Proof.
 Qed.
 
 Theorem history_any_oracle : forall i ops, init_ok i ->
-  exists k, run_init T zero i ops =
-    map Ok (firstn k (spec_run T zero [] ops)) ++ (if (k <? length ops)%nat then [BadOracle] else []).
+  exists k, run_init idw T zero i ops =
+    map QOk (firstn k (spec_run T zero [] ops)) ++ (if (k <? length ops)%nat then [BadOracle] else []).
 Proof.
   intros i ops Hi. destruct (mk_init_ok i Hi) as (q & Hq & Hinv & Ha & Hl & Hn).
   unfold run_init. rewrite Hq. rewrite <- Ha. apply run_any_oracle. exact Hinv.
 Qed.
 
-Theorem no_panic : forall i ops pk, init_ok i -> ~ In (Panic pk) (run_init T zero i ops).
+Theorem no_panic : forall i ops pk, init_ok i -> ~ In (QPanic pk) (run_init idw T zero i ops).
 Proof.
   intros i ops pk Hi Hin. destruct (history_any_oracle i ops Hi) as (k & Hk).
   rewrite Hk in Hin. apply in_app_or in Hin. destruct Hin as [H|H].
@@ -723,8 +737,24 @@ Proof.
   - destruct (k <? length ops)%nat; cbn in H; [destruct H as [H|H]; [discriminate|contradiction]|contradiction].
 Qed.
 
+(* the fuel of slice.Rotate's inner loop never runs out *)
+Theorem no_fuel : forall i ops, init_ok i -> ~ In RotateFuel (run_init idw T zero i ops).
+Proof.
+  intros i ops Hi Hin. destruct (history_any_oracle i ops Hi) as (k & Hk).
+  rewrite Hk in Hin. apply in_app_or in Hin. destruct Hin as [H|H].
+  - apply in_map_iff in H. destruct H as (x & Hx & _). discriminate.
+  - destruct (k <? length ops)%nat; cbn in H; [destruct H as [H|H]; [discriminate|contradiction]|contradiction].
+Qed.
+
+(* NewSize(k) with k < 0: the constructor itself panics in make (no queue comes into being) *)
+Theorem newsize_negative : forall w k ops, k < 0 -> run_init w T zero (ISize k) ops = [QPanic PMakeLen].
+Proof.
+  intros w k ops Hk. unfold run_init, mk_init, new_size, newsize_len, make.
+  replace (k <? 0) with true by (symmetry; apply Z.ltb_lt; lia). reflexivity.
+Qed.
+
 Lemma exec_refines : forall ops q, inv q -> oracles_ok T (zlen T (vs q)) (n q) ops ->
-  exists q', exec T zero q ops = Ok q' /\ inv q' /\ abs q' = spec_exec T zero (abs q) ops.
+  exists q', exec idw T zero q ops = QOk q' /\ inv q' /\ abs q' = spec_exec T zero (abs q) ops.
 Proof.
   induction ops as [|o ops IH]; intros q Hinv Hor.
   - exists q. split; [reflexivity|split; [assumption|reflexivity]].
@@ -734,7 +764,7 @@ Proof.
     apply IH; [exact Hi|]. rewrite <- Hc in Hrest. exact Hrest.
 Qed.
 
-Lemma exec_inv : forall ops q q', inv q -> exec T zero q ops = Ok q' -> inv q'.
+Lemma exec_inv : forall ops q q', inv q -> exec idw T zero q ops = QOk q' -> inv q'.
 Proof.
   induction ops as [|o ops IH]; intros q q' Hinv H; cbn [exec] in H.
   - inversion H; subst; exact Hinv.
@@ -745,7 +775,7 @@ Proof.
 Qed.
 
 (* every state a history can lead to -- whatever the oracles -- satisfies the ring invariant *)
-Theorem reachable_inv : forall i ops q, init_ok i -> exec_init T zero i ops = Ok q ->
+Theorem reachable_inv : forall i ops q, init_ok i -> exec_init idw T zero i ops = QOk q ->
   0 <= n q <= zlen T (vs q) /\ 0 <= head q /\ (head q < zlen T (vs q) \/ head q = 0) /\ (n q = 0 -> head q = 0).
 Proof.
   intros i ops q Hi H. destruct (mk_init_ok i Hi) as (q0 & Hq & Hinv & _).
@@ -755,9 +785,9 @@ Qed.
 (* Each with an arbitrary (stateful) callback, and Peek at any offset, in any reachable state *)
 Theorem each_any_callback : forall i ops (A : Type) (f : A -> T -> A * bool) (a : A),
   init_ok i -> oracles_ok T (init_cap i) 0 ops ->
-  exists q, exec_init T zero i ops = Ok q /\
-    each T A f q a = Ok (spec_each T f (spec_exec T zero [] ops) a) /\
-    (forall k, peek T zero q k = Ok (spec_peek T zero (spec_exec T zero [] ops) k)).
+  exists q, exec_init idw T zero i ops = QOk q /\
+    each idw T A f q a = QOk (spec_each T f (spec_exec T zero [] ops) a) /\
+    (forall k, peek idw T zero q k = QOk (spec_peek T zero (spec_exec T zero [] ops) k)).
 Proof.
   intros i ops A f a Hi Hor. destruct (mk_init_ok i Hi) as (q0 & Hq & Hinv & Ha & Hl & Hn).
   destruct (exec_refines ops q0 Hinv) as (q & He & Hiq & Haq); [rewrite Hl, Hn; exact Hor|].
